@@ -114,6 +114,13 @@ func (s *state) removeTorrent(h core.InfoHash, err error) {
 		if err := s.sched.torrentArchive.DeleteTorrent(ctrl.dispatcher.Digest()); err != nil {
 			s.sched.log().Errorf("Error deleting torrent from archive: %s", err)
 		}
+	} else {
+		// The dispatcher may have completed without its completion event having been
+		// applied yet. Clients still waiting on this torrent must be notified here,
+		// since the completion event will no longer find this torrent control.
+		for _, errc := range ctrl.errors {
+			errc <- err
+		}
 	}
 	delete(s.torrentControls, h)
 }
